@@ -66,6 +66,7 @@ def ms_synonyms(conv, uri_in, result):
 @contract("mapping_service.api.MappingServiceGraph._expand_pair_all", props=["C18"], returns="list[str]")
 def c_ms_expand_pair_all(self: MappingServiceGraph, uri_in: str):
     requires(WF(self.converter))
+    pure()
     conv = self.converter
     hit = uri_hit(conv, uri_in)
     # the strict=True call inside never raises: there is no raises-clause
@@ -78,6 +79,23 @@ def c_ms_expand_pair_all(self: MappingServiceGraph, uri_in: str):
     ensures(implies(hit, ms_synonyms(conv, uri_in, result)))
     ensures([str(x) for x in result] == equivalent_uris(self.converter, uri_in), native=True)
     ensures(conv_state(self.converter) == old(conv_state(self.converter)), native=True)
+
+
+@lemma("C18.expand_pair_all_are_expansions", props=["C18"])
+def l_c18_members(g: MappingServiceGraph, u: str, i: int):
+    """Over the contracts of _expand_pair_all, compress and expand_all: what the service offers for a URI are members of
+    expand_all(compress(u)); an unrecognised URI gets nothing (no CURIE prefix contains the delimiter)."""
+    requires(WF(g.converter))
+    requires(all(first_occ(q, g.converter.delimiter) for r in g.converter.records for q in P(r)))
+    out = g._expand_pair_all(u)
+    c = g.converter.compress(u)
+    if c is None:
+        assert len(out) == 0
+    else:
+        alls = g.converter.expand_all(c)
+        assert alls is not None
+        if 0 <= i and i < len(out):
+            assert str(out[i]) in alls
 
 
 @lemma("C18.triples_dispatch", props=["C18"], bounded_only="generator + rdflib term types; SPARQL evaluation itself is rdflib's (assumed)")
